@@ -1,0 +1,12 @@
+//go:build verif
+
+// Contracts checked by /verif/govc (comment-only; compiled only with -tags verif).
+package emulated
+
+// The evaluation caches live inside the user's circuit elements; if one survived a compilation, the next
+// compilation of the same circuit value would emit different constraints (C11).
+//@ contract (*mulCheck).cleanEvaluations
+//@   props C11
+//@   requires mc != nil && mc.a != nil && mc.b != nil && mc.r != nil && mc.k != nil && mc.c != nil
+//@   nopanic
+//@   ensures @all-caches-cleared !mc.a.isEvaluated && !mc.b.isEvaluated && !mc.r.isEvaluated && !mc.k.isEvaluated && !mc.c.isEvaluated && (mc.p != nil ==> !mc.p.isEvaluated)
